@@ -226,6 +226,147 @@ def make_e(params, part, nparts):
     return h
 
 
+# ---------------------------------------------------------------------------------------------------------------
+# e_twins: two distinct interface objects with the same (__name__, __module__) -- they compare and hash equal --
+# in one graph (a module that is reloaded, a class statement that runs twice).  Identity is what `__bases__`
+# relates, so every `__sro__` is compared *by identity* with reachability and with a freshly built graph.
+T_IO, T_IB, T_TA, T_TB, T_IS, T_ISA, T_ISB, T_K, T_D, T_P = range(10)
+T_NAMES = ['IO', 'IB', 'IT#a', 'IT#b', 'IS', 'ISa', 'ISb', 'implementedBy(K)', 'D', 'providedBy(ob)']
+T_REAL = ['IO', 'IB', 'IT', 'IT', 'IS', 'ISa', 'ISb', None, None, None]
+T_N = len(T_NAMES)
+T_IFACES = tuple(range(7))
+T_TWIN = {T_TA: T_TB, T_TB: T_TA}
+T_INIT = {T_IO: (), T_IB: (), T_TA: (T_IB,), T_TB: (T_IB,), T_IS: (T_TA,), T_ISA: (T_TA,), T_ISB: (T_TB,),
+          T_K: (T_IS,), T_D: (T_IS,), T_P: (T_ISA, T_K)}
+T_OPS = ([(T_IB, b) for b in [(), (T_IO,)]] +
+         [(t, b) for t in (T_TA, T_TB) for b in [(), (T_IB,), (T_IO,), (T_IB, T_IO), (T_IO, T_IB)]] +
+         [(T_IS, b) for b in [(T_TA,), (T_TB,), (T_TA, T_IO), (T_TB, T_IB)]] +
+         [(T_ISA, b) for b in [(T_TA,), (T_TB,), (T_IS,)]] +
+         [(T_K, b) for b in [(T_IS,), (T_ISA,), (T_TB,)]] +
+         [(T_D, b) for b in [(T_IS,), (T_ISB,), (T_TB, T_IO)]])
+
+
+class TwinGraph:
+    def __init__(self, fresh_bases=None):
+        from zope.interface import Interface, implementer, directlyProvides, implementedBy, providedBy
+        from zope.interface.declarations import Declaration, Implements
+        from zope.interface.interface import InterfaceClass
+        from vlib import universe as U
+        self.Interface = Interface
+        mod = U.fresh_module_name()
+        nodes = [None] * T_N
+        for n in T_IFACES:
+            nodes[n] = InterfaceClass(T_REAL[n], (Interface,), __module__=mod)
+        if fresh_bases is None:
+            for n in T_IFACES:
+                if T_INIT[n]:
+                    nodes[n].__bases__ = tuple(nodes[b] for b in T_INIT[n])
+            K = implementer(nodes[T_IS])(type('K', (object,), {}))
+            ob = K()
+            directlyProvides(ob, nodes[T_ISA])
+            self.keep = (K, ob)
+            nodes[T_K] = implementedBy(K)
+            nodes[T_K].__bases__ = (nodes[T_IS],)       # without implementedBy(object): keeps the mirror simple
+            nodes[T_D] = Declaration(nodes[T_IS])
+            nodes[T_P] = providedBy(ob)
+            self.nodes = nodes
+            self.bases = dict(T_INIT)
+        else:
+            nodes[T_K] = Implements.named('freshK')
+            nodes[T_D] = Declaration()
+            nodes[T_P] = Declaration()
+            self.nodes = nodes
+            self.bases = dict(fresh_bases)
+            for n in range(T_N):
+                bs = tuple(nodes[b] for b in fresh_bases[n])
+                if n in T_IFACES and not bs:
+                    bs = (Interface,)
+                nodes[n].__bases__ = bs
+
+    def index(self, spec):
+        if spec is self.Interface:
+            return 'ROOT'
+        for k, n in enumerate(self.nodes):
+            if n is spec:
+                return k
+        return 'FOREIGN:%r' % (spec,)
+
+    def rebase(self, node, bases):
+        bs = tuple(self.nodes[b] for b in bases)
+        if node in T_IFACES and not bs:
+            bs = (self.Interface,)
+        self.nodes[node].__bases__ = bs
+        self.bases[node] = tuple(bases)
+
+
+def _tnm(seq):
+    return '[' + ', '.join(x if isinstance(x, str) else T_NAMES[x] for x in seq) + ']'
+
+
+def t_fmt(ops):
+    return '; '.join('%s.__bases__ = (%s)' % (T_NAMES[n], ', '.join(T_NAMES[b] for b in bs) + (',' if len(bs) == 1 else ''))
+                     for n, bs in ops)
+
+
+def t_check(g, hist):
+    f = TwinGraph(fresh_bases=g.bases)
+    for s in range(T_N):
+        S = g.nodes[s]
+        r = reach(g.bases, s)
+        sro = [g.index(x) for x in S.__sro__]
+        if sro[0] != s or set(sro) != r | {'ROOT'} or len(set(sro)) != len(sro):
+            raise Violation('history [%s] (IT#a and IT#b are distinct interfaces of the same name and module): %s.__sro__ holds, by identity, %s; '
+                            'reachable over the current __bases__: %s (+ Interface)' % (t_fmt(hist), T_NAMES[s], _tnm(sro), _tnm(sorted(r))),
+                            signature='C02:twins:sro-set')
+        fs = [f.index(x) for x in f.nodes[s].__sro__]
+        if sro != fs:
+            raise Violation('history [%s] (IT#a/IT#b: same name, distinct objects): %s.__sro__ is %s; a freshly built graph of the same shape gives %s' % (
+                t_fmt(hist), T_NAMES[s], _tnm(sro), _tnm(fs)), signature='C02:twins:history-dependent-sro')
+        if [g.index(x) for x in S.__bases__] != [b for b in g.bases[s]] and not (s in T_IFACES and not g.bases[s]):
+            raise Violation('history [%s]: %s.__bases__ holds %s after being assigned %s' % (
+                t_fmt(hist), T_NAMES[s], _tnm([g.index(x) for x in S.__bases__]), _tnm(g.bases[s])), signature='C02:twins:bases')
+        for t in range(T_N):
+            exp = t in r or (t in T_TWIN and T_TWIN[t] in r)     # an interface *is* its equal-named twin for isOrExtends (C12 equality)
+            got = bool(S.isOrExtends(g.nodes[t]))
+            if got != exp:
+                raise Violation('history [%s] (IT#a/IT#b: same name, distinct objects): %s.isOrExtends(%s) is %s, reachability over the current '
+                                '__bases__ says %s' % (t_fmt(hist), T_NAMES[s], T_NAMES[t], got, exp), signature='C02:twins:isOrExtends')
+    for i in T_IFACES:
+        r = reach(g.bases, T_P)
+        exp = i in r or (i in T_TWIN and T_TWIN[i] in r)
+        if bool(g.nodes[i].providedBy(g.keep[1])) != exp:
+            raise Violation('history [%s]: %s.providedBy(ob) is %s, reachability from providedBy(ob) says %s' % (
+                t_fmt(hist), T_NAMES[i], not exp, exp), signature='C02:twins:providedBy')
+
+
+def run_twin_history(ops):
+    g = TwinGraph()
+    t_check(g, ())
+    for k, (node, bases) in enumerate(ops):
+        g.rebase(node, bases)
+        # outside the claim: a specification that reaches both twins (its resolution order merges by equality)
+        for s in range(T_N):
+            r = reach(g.bases, s)
+            if T_TA in r and T_TB in r:
+                return
+        t_check(g, ops[:k + 1])
+
+
+def make_e_twins(params, part, nparts):
+    NA = len(T_OPS)
+    L = params['L']
+
+    def h(n: int, o1: int, o2: int, o3: int):
+        c1 = pick(o1, NA)
+        assume(c1 % nparts == part)
+        ln = pick(n, L) + 1
+        idx = [c1] + [pick(o, NA) for o in (o2, o3)[:ln - 1]]
+        ops = tuple(T_OPS[i] for i in idx)
+        reached(tuple(idx), dict(history=t_fmt(ops)))
+        native(run_twin_history, ops)
+    return h
+
+
 _ENC = ['zope.interface.interface:Specification.changed', 'zope.interface.interface:Specification._calculate_sro',
         'zope.interface.interface:Specification.subscribe', 'zope.interface.interface:Specification.unsubscribe',
         'zope.interface.interface:Specification.extends', 'zope.interface.interface:SpecificationBasePy.isOrExtends',
@@ -253,6 +394,15 @@ HARNESSES = [
             encoded=_ENC,
             bounds=_B + 'assignments of ordered subsets of size <=3; quick L=1, thorough L<=2 (pure-Python build)',
             oracle='as e_rebase'),
+    Harness('e_twins', make_e_twins, kind='E', impls=('py', 'c'),
+            tiers=dict(quick=dict(budget_s=90, parts=8, params=dict(L=2)),
+                       thorough=dict(budget_s=1500, parts=16, params=dict(L=3))),
+            encoded=_ENC,
+            bounds='graph of 10 specifications with two distinct interface objects of the same __name__ and __module__ (IT#a, IT#b; both based on IB), '
+                   'sub-interfaces IS, ISa, ISb, a class declaration, a plain Declaration and an instance declaration below them; every history of <=2 '
+                   '(thorough <=3) assignments from a 25-op alphabet, including re-basing a dependent from one twin to the other',
+            outside='a specification that reaches both twins at once (history cut at that step)',
+            oracle='identity-indexed __sro__ == reachability set and == freshly built graph; isOrExtends by reachability up to interface equality'),
 ]
 
 ASSUMPTIONS = ['__bases__ graphs are acyclic (new bases are always lower-ranked nodes)']
